@@ -953,6 +953,11 @@ type c18Attempt struct {
 	// no meaning (a 4xx is final for the provider, a 5xx is retried on the back-off schedule), so it
 	// is not part of the oracle token.
 	RetryAfter string
+	// UnexpectedEOF: a body read error ('b') is io.ErrUnexpectedEOF (the connection dropped before the
+	// announced length arrived) instead of the scripted sentinel; with Body set, those bytes — a
+	// well-formed address that is a PREFIX of what the provider was sending — arrive before the error.
+	// Either way the attempt is a failed read: retryable, never an answer.
+	UnexpectedEOF bool
 }
 
 func (a c18Attempt) token() string {
@@ -999,9 +1004,19 @@ type c18Transport struct {
 var errC18Transport = errors.New("verif: scripted transport failure")
 var errC18Body = errors.New("verif: scripted body read failure")
 
-type c18ErrReader struct{}
+type c18ErrReader struct {
+	data []byte
+	err  error
+}
 
-func (c18ErrReader) Read([]byte) (int, error) { return 0, errC18Body }
+func (r *c18ErrReader) Read(p []byte) (int, error) {
+	if len(r.data) > 0 {
+		n := copy(p, r.data)
+		r.data = r.data[n:]
+		return n, nil
+	}
+	return 0, r.err
+}
 
 func (tr *c18Transport) RoundTrip(req *http.Request) (*http.Response, error) {
 	tr.mu.Lock()
@@ -1035,7 +1050,8 @@ func (tr *c18Transport) RoundTrip(req *http.Request) (*http.Response, error) {
 		return nil, errC18Transport
 	case 'b':
 		return &http.Response{StatusCode: a.Status, Status: fmt.Sprintf("%d scripted", a.Status), Header: http.Header{},
-			Body: io.NopCloser(c18ErrReader{}), Request: req, ProtoMajor: 1, ProtoMinor: 1}, nil
+			Body: io.NopCloser(&c18ErrReader{data: append([]byte{}, a.Body...), err: map[bool]error{false: errC18Body, true: io.ErrUnexpectedEOF}[a.UnexpectedEOF]}),
+			Request: req, ProtoMajor: 1, ProtoMinor: 1, ContentLength: int64(len(a.Body) + 3)}, nil
 	}
 	hdr := http.Header{}
 	if a.RetryAfter != "" {
@@ -1137,6 +1153,13 @@ func c18GenAttempt(r *hx.RNG, long bool) c18Attempt {
 		a.Kind = 't'
 	case k == 3:
 		a.Kind, a.Status = 'b', hx.Pick(r, c18Statuses)
+		if r.Chance(1, 2) {
+			a.Status = 200
+		}
+		a.UnexpectedEOF = r.Chance(1, 2)
+		if r.Chance(2, 3) {
+			a.Body = hx.Pick(r, [][]byte{[]byte("192.0.2.1"), []byte("203.0.113."), []byte("2001:db8::1"), []byte("198.51.100.25")})
+		}
 	default:
 		a.Kind, a.Status, a.Body = 'r', hx.Pick(r, c18Statuses), hx.Pick(r, c18Bodies)
 		if r.Chance(3, 5) { // mostly addresses, so that retries and successes are common
@@ -1210,6 +1233,7 @@ func c18PubCatalog() []c18PubCase {
 		{Kind: 'r', Status: 503, Body: nil},
 		{Kind: 'r', Status: 301, Body: []byte("203.0.113.9")},
 		{Kind: 'b', Status: 200},
+		{Kind: 'b', Status: 200, UnexpectedEOF: true, Body: []byte("192.0.2.1")},
 		{Kind: 't'},
 	}
 	var out []c18PubCase
